@@ -212,7 +212,8 @@ let print_qs a = Array.iter (fun x -> print_char ' '; print_string (string_of_q 
 
 let () =
   let ic = open_in Sys.argv.(1) in
-  let always_enum = Array.length Sys.argv > 2 && Sys.argv.(2) = "enum" in
+  let always_enum = Array.exists (fun a -> a = "enum") Sys.argv in
+  let do_kkt = Array.exists (fun a -> a = "kkt") Sys.argv in
   let insts = read_instances ic in
   close_in ic;
   List.iter (fun inst ->
@@ -278,7 +279,7 @@ let () =
            equation of KKT.v at every variable whose block statistics are up to date; line
            "q k ok nstates fresh_vars_at_return gap_bound_at_return min_recomputed_multiplier_at_return" *)
         (match o with
-         | OS | OF when check_inv ->
+         | OS | OF when check_inv && do_kkt ->
              let (_, (st_ok, nst2)) = step_w_chk kkt_stateb fuel !s op in
              let qs = function Some q -> Printf.sprintf "%.6e" (float_of_q q) | None -> "none" in
              (match r with
